@@ -1,7 +1,5 @@
 import Pfl
-#print axioms Pfl.FS.unify_none_iff
-#print axioms Pfl.FS.unify_facts
-#print axioms Pfl.FS.unify_wt
-#print axioms Pfl.FS.unify_comm
-#print axioms Pfl.CFG.cfgMem_iff
-#print axioms Pfl.CFG.treeValid_sound
+#print axioms Pfl.CFG.genCounters_restores
+#print axioms Pfl.CFG.genCounters_history
+#print axioms Pfl.CFG.genCounters_generating
+#print axioms Pfl.CFG.genCounters_nullable
